@@ -1,4 +1,5 @@
-import sys; sys.path.insert(0,'/tmp/wp_mpsc/lean/MayVerif/Proof/Queue/Mpsc/gen')
+import os
+import sys; sys.path.insert(0,os.path.dirname(os.path.abspath(__file__)))
 from gen_p import write
 def ind(s,n=2): return ''.join(' '*n+l+'\n' for l in s.rstrip('\n').split('\n'))
 PRE0='''have ht0 : t = 0 := h.cons0 t (by show isCons0 (pcs t) = true; rw [hpc]; rfl)
@@ -89,7 +90,7 @@ rw [← hx1.2.2.1] at hx2 hx3
 rw [hx2] at hx3
 have hx4 := List.isEmpty_iff_length_eq_zero (l := acc)
 simp only [tstepC, touch] at hts
-simp only [hx2] at hts
+try simp only [hx2] at hts
 '''
 B['bFast']=C(RD_CI('lFast')+'''by_cases hg1 : sh.a.ready sh.a.head = true
 · by_cases hg2 : (sh.a.head + 1) % sh.B = 0 <;>
@@ -124,8 +125,14 @@ bfin 0
 for c in 'nAlloc0 nAlloc1 nLink'.split(): B[c]=ind(NEWPH)
 
 # ---- pSet ----
-B['pSet']=P('''have hp := pset {T} v b i hpc
-have hpa := psetA {T} v b i hpc
+B['pSet']=P('''have hp := pset {T} v b i (by rw [hpc]; rfl)
+have hpa := psetA {T} v b i (by rw [hpc]; rfl)
+have hpsv := psv {T} v b i hpc
+have hpb := psetB {T} v b i (by rw [hpc]; rfl)
+have hcb : i + 1 = sh.B → b = sh.tail.blk :=
+  fun hh => (cl3 v b i (hp.2.2 hh).1 (by rw [← (hp.2.2 hh).2, hpc]; rfl)).2
+have hc3 : sh.a.closing = true → sh.a.own (sh.a.res - 1) = {T} → i + 1 = sh.B :=
+  fun hc ht => (cl3 v b i hc (by rw [ht, hpc]; rfl)).1
 have hgeo := geo b hp.1
 have hx1 := succ_mod_blk sh.B b i hp.2.1
 rw [hgeo] at hA' ⊢
@@ -264,6 +271,55 @@ by_cases hg1 : sh.tail = w
     simp only [advA, MpscA.tstep, if_neg hgA] at hA' ⊢
     bfin {T}
 ''')
+
+
+# ---- model change: slot accesses are steps of their own ----
+B['pWrite']=P('''have hp := pset {T} v b i (by rw [hpc]; rfl)
+have hpa := psetA {T} v b i (by rw [hpc]; rfl)
+have hx1 := rdyR b i hp.2.1
+have hps : ∀ u v1 b1 i1, wrSlot (upd pcs {T} (.pSet v b i) u) = some (v1, b1, i1) → wrSlot (pcs u) = some (v1, b1, i1) := by
+  intro u v1 b1 i1 hh
+  simp only [upd] at hh
+  split at hh
+  · next hu => rw [hu, hpc]; exact hh
+  · exact hh
+have hU : ∀ u v', pcs u = .pSet v' b i → u = {T} :=
+  fun u v' hu => psU u {T} v' v b i (by rw [hu]; rfl) (by rw [hpc]; rfl)
+have hpb := psetB {T} v b i (by rw [hpc]; rfl)
+have hcb : i + 1 = sh.B → b = sh.tail.blk :=
+  fun hh => (cl3 v b i (hp.2.2 hh).1 (by rw [← (hp.2.2 hh).2, hpc]; rfl)).2
+have hc3 : sh.a.closing = true → sh.a.own (sh.a.res - 1) = {T} → i + 1 = sh.B :=
+  fun hc ht => (cl3 v b i hc (by rw [ht, hpc]; rfl)).1
+simp only [tstepC, touch] at hts
+bbranches
+simp only [advA] at hA' ⊢
+bfin {T}
+''')
+RD_PI_HEAD='''have hx1 := in_blk sh.B sh.headBlk sh.headIdx hb1.1 hb2
+have hx5 : sh.headBlk * sh.B + sh.headIdx % sh.B = sh.a.head := by omega
+have hx2 := rdyR sh.headBlk (sh.headIdx % sh.B) hx1.2.1
+have hx3 := valR sh.headBlk (sh.headIdx % sh.B) hx1.2.1
+rw [hx5] at hx2 hx3
+rw [hx2] at hx3
+have hx3 := hx3 lRd
+simp only [tstepC, touch] at hts
+bbranches
+simp only [advA, MpscA.tstep, lRd, eq_self, Bool.false_eq_true, ↓reduceIte] at hA' ⊢
+bfin 0
+'''
+B['oRead']=C(RD_PI_HEAD, wrap='cases d <;> cases sp')
+B['kRead']=C(RD_PI_HEAD)
+B['bFast']=C(RD_CI('lFast')+'''by_cases hg1 : sh.a.ready sh.a.head = true
+· '''+ind(FIN('hg1')).lstrip()+'''· by_cases hg2 : acc.isEmpty = true <;>
+'''+ind(FIN('hg1, hg2')))
+B['bFastRd']=C(RD_CI('lFast')+'''have hx3 := hx3 lRd
+by_cases hg2 : (sh.a.head + 1) % sh.B = 0 <;>
+'''+FIN('lRd, hg2'))
+B['bCopy']=C(RD_CI('(by omega)')+'''by_cases hg1 : sh.a.ready sh.a.head = true <;>
+'''+FIN('hg1'))
+B['bCopyRd']=C(RD_CI('(by omega)')+'''have hx3 := hx3 lRd
+by_cases hg2 : sh.a.head + 1 ≥ ce <;>
+'''+FIN('lRd, hg2'))
 
 if __name__=='__main__':
     which=sys.argv[1:] or list(B)
